@@ -114,6 +114,9 @@ func jitterNanos(t *rapid.T, m protoreflect.Message) bool {
 	changed := false
 	if m.Descriptor().FullName() == "google.protobuf.Timestamp" {
 		nf := m.Descriptor().Fields().ByName("nanos")
+		if m.Get(m.Descriptor().Fields().ByName("seconds")).Int() == 0 {
+			return false // (second 0 with nanos 0 would be the all-zero date, whose reading is left open)
+		}
 		old := int32(m.Get(nf).Int())
 		nv := rapid.SampledFrom([]int32{0, 1, 127, 128, 1000, 16384, 500000000, 999999999}).Draw(t, "nanos")
 		if nv != old {
@@ -169,7 +172,7 @@ func listSetKey(nl *sbom.NodeList) string {
 
 func genC13Node(t *rapid.T, label string, text *rapid.Generator[string]) *sbom.Node {
 	n := &sbom.Node{}
-	hx.Populate(t, label, n.ProtoReflect(), hx.PopOpts{Text: text, Depth: 3, MaxRep: 3, FillProb: 45})
+	hx.Populate(t, label, n.ProtoReflect(), hx.PopOpts{Text: text, Depth: 3, MaxRep: 3, FillProb: 45, NoZeroTimestamps: true})
 	return n
 }
 
